@@ -387,6 +387,15 @@ fn string_from_attrs(param: &abi_ast::Param, emitter: &dyn Emitter) -> Result<Op
             }
         };
 
+        if let (Some(furibug), StringArgSize::Fixed { .. }) = (&furibug, &size) {
+            // (the quirk appends leftover bytes after the string's null terminator,
+            //  which a fixed-size buffer has no room for and a 'nulless' one cannot delimit)
+            return Err(emitter.as_sized().emit(error!(
+                message("'furibug' is only supported for strings that use 'bs'"),
+                primary(furibug, ""),
+            )));
+        }
+
         Ok(Some(ArgEncoding::String {
             mask: {
                 user_mask.map(|sp| sp.value).or(default_mask)
